@@ -11,7 +11,11 @@ VARIABLES now, stack, nops, act
 \* stack: set of [prio, key, sc, dc, dt, fo]  sc/dc start/destination colour, dt = time the fade ends
 \* (0: no fade), fo = TRUE for a fade-out entry (dc unused)
 vars == <<now, stack, nops, act>>
-Init == now = 0 /\ stack = {} /\ nops = 0 /\ act = [op |-> "init"]
+\* the stacks a behaviour may start from: the empty one (a light after boot).  Model-checking configurations may replace
+\* this definition by stacks which already hold several keys (LightStackMC), so that the whole budget MaxOps is spent
+\* on what happens to them: removals of different keys fading out at once, removed keys being set again
+InitStacks == {{}}
+Init == now = 0 /\ stack \in InitStacks /\ nops = 0 /\ act = [op |-> "init"]
 Above(a, b) == a.prio > b.prio \/ (a.prio = b.prio /\ a.key > b.key)
 Min(a, b) == IF a < b THEN a ELSE b
 Max(a, b) == IF a > b THEN a ELSE b
@@ -70,6 +74,20 @@ EmptyIsOff == stack = {} => Logical(stack, now) = 0
 \* removing a key without fade restores exactly the colour beneath it
 RemoveRestores == [][ (act'.op = "remove" /\ act'.f = 0 /\ now' = now) =>
                         Range(stack', now) = Range({e \in stack : e.key # act'.k}, now) ]_vars
+\* ---- faded removals (also several of them, of different keys, in flight at once) ----------------------------------
+\* a removed key is gone once its fade-out has ended: no fade-out entry outlives its end time ...
+FadeOutGone == \A e \in stack : e.fo => now < e.dt
+\* ... every key has at most one entry ...
+OneEntryPerKey == \A e, g \in stack : e.key = g.key => e = g
+\* ... and so a colour command for a key that is not in the stack (never set, removed, or removed with a fade-out that has
+\* ended - no matter which other fade-outs were running meanwhile) takes effect with whatever priority it is given
+ReAddTakesEffect == [][ (act'.op = "color" /\ nops' = nops + 1 /\ ~HasKey(act'.k)) =>
+                          \E e \in stack' : e.key = act'.k /\ e.prio = act'.p /\ e.dc = act'.c /\ ~e.fo ]_vars
+\* a fade-out is transparent once it has ended, whatever else is still fading out: the colour is then that of the part
+\* of the stack which is not a finished fade-out
+EndedFadeOutTransparent == Range(stack, now) = Range({e \in stack : ~(e.fo /\ now >= e.dt)}, now)
+\* the keys of the stack (the Trace module compares them with the keys the real light still holds)
+KeysOf(S) == {e.key : e \in S}
 \* while a fade runs the colour stays between its endpoints (range never wider than the colours involved)
 WithinEndpoints == \A e \in stack : InR(Range({e}, now)[1], <<Min(e.sc, e.dc), Max(e.sc, e.dc)>>) \/ e.fo
 =============================================================================
